@@ -131,7 +131,13 @@ func Fail(msg string) {
 func Reach(label string) {}
 
 // Observe records an output for translator validation.
-func Observe(name string, v any) { fmt.Printf("VERIF-OBSERVE: %s=%v\n", name, v) }
+func Observe(name string, v any) {
+	if s, ok := v.(string); ok {
+		fmt.Printf("VERIF-OBSERVE: %s=%q\n", name, s)
+		return
+	}
+	fmt.Printf("VERIF-OBSERVE: %s=%v\n", name, v)
+}
 
 // Known names a class of inputs covered by an entry of known_findings.jsonl.
 func Known(id string, cond bool) {}
